@@ -101,7 +101,7 @@ static std::vector<int> lane_weights(const std::string &lane, Rng &r) {
     std::initializer_list<int> arrdata = {OP_arr_write, OP_arr_write_whole, OP_arr_append, OP_arr_extent, OP_arr_read, OP_arr_read_cal, OP_arr_view, OP_arr_origin, OP_arr_poly};
     std::initializer_list<int> dimops = {OP_dim_append, OP_dim_delete_all, OP_dim_set, OP_dim_read};
     std::initializer_list<int> frameops = {OP_frame_rows, OP_frame_write_row, OP_frame_write_cell, OP_frame_write_col, OP_frame_read_row, OP_frame_read_cell, OP_frame_read_col};
-    std::initializer_list<int> abuse = {OP_abuse_array, OP_abuse_dims, OP_abuse_tag, OP_abuse_none, OP_abuse_frame, OP_abuse_misc};
+    std::initializer_list<int> abuse = {OP_abuse_array, OP_abuse_dims, OP_abuse_tag, OP_abuse_none, OP_abuse_frame, OP_abuse_misc, OP_abuse_legacy};
 
     // a thin base of everything that builds structure, so every lane meets non-trivial files
     w_set(w, create_core, 6);
